@@ -27,7 +27,9 @@ PATHS = ["", "", "[heap]", "[stack]", "[vdso]", ROOT + "/lib/libc.so.6",
          ROOT + "/lib/\xe9\xe8.so", "anon_inode:[io_uring]", ROOT + "/x:",
          # runs of blanks / tabs inside a name are part of the name
          ROOT + "/data/My  Lib.so", ROOT + "/data/My Lib.so", ROOT + "/data/tab\there.bin",
-         ROOT + "/data/My   Lib.so"]
+         ROOT + "/data/My   Lib.so",
+         # the kernel escapes only \n in these paths: a carriage return stays raw
+         ROOT + "/data/dos\rname.bin", ROOT + "/data/x\r00400000-00401000 r-xp 00000000 fd:01 7 /y"]
 
 CORE = ["Size", "Rss", "Pss", "Shared_Clean", "Shared_Dirty", "Private_Clean",
         "Private_Dirty", "Referenced", "Anonymous", "Swap"]
